@@ -207,7 +207,7 @@ func (r *RootAssertionNode) bindParamSourcedResultFieldAtCall(
 		Kind:     annotation.StructFieldReturnContext,
 		Index:    result.Idx,
 		Path:     result.Path,
-		Location: r.LocationOf(call),
+		Location: r.CallSiteLocationOf(call),
 	}
 	r.AddProduction(&annotation.ProduceTrigger{
 		Annotation: &annotation.StructFieldFromContext{
@@ -239,7 +239,7 @@ func (r *RootAssertionNode) bindShallowCallResultArgs(call *ast.CallExpr, funcOb
 			Kind:     annotation.StructFieldReturnContext,
 			Index:    result.Idx,
 			Path:     result.Path,
-			Location: r.LocationOf(call),
+			Location: r.CallSiteLocationOf(call),
 		}
 		r.bindExprNilabilityToContext(sourceExpr, site)
 	}
@@ -265,7 +265,7 @@ func (r *RootAssertionNode) shallowCallResultSiteProducer(
 		Kind:     annotation.StructFieldReturnContext,
 		Index:    result.Idx,
 		Path:     result.Path,
-		Location: r.LocationOf(call),
+		Location: r.CallSiteLocationOf(call),
 	}
 	sig := funcObj.Signature()
 	needsGuard := (typeshelper.FuncIsErrReturning(sig) || typeshelper.FuncIsOkReturning(sig)) &&
